@@ -172,8 +172,10 @@ def gen_history(rng, maxlen, stats):
     return lines
 
 
-# histories on which the unchanged C code leaves defined behaviour: each is run in its own probe process and must die
-# with a sanitizer report exactly where the model says Crash
+# histories at the border of defined behaviour, each run in its own probe process.  The first seven are the witnesses of the
+# REPAIRED findings c20:dyn:clone-struct (c3b7222) and c20:dyn:slice-overflow (9ae9f7a): the model now describes the repaired code,
+# so they must run to the end with the model's answers (a sanitizer death is a regression -> VIOLATION).  The last two are
+# still undefined in the C (capacity*elem_size overflows int64; caller-controlled size): the model says Crash, the code must die.
 CRASH_CASES = [
     ('c20:dyn:clone-struct', ['new 6', 'pushs 0102', 'clone']),
     ('c20:dyn:clone-struct', ['new 6', 'clone']),
